@@ -1,0 +1,109 @@
+//go:build verif
+
+package tmindex
+
+// Verification exports for property C02 (time-range queries): the ckindex block tree on in-memory blocks.
+// Pure additions, compiled only with the build tag `verif`.
+
+import (
+	"github.com/logrange/range/pkg/bstorage"
+)
+
+const (
+	VerifSparseSpace     = sparseSpace
+	VerifMaxRecsPerBlock = maxRecsPerBlock
+)
+
+// VerifPt is one index record (timestamp, position).
+type VerifPt struct {
+	Ts  int64
+	Idx uint32
+}
+
+// VerifTree is a ckindex tree living in memory; Root < 0 means "no tree yet".
+type VerifTree struct {
+	ci   *ckindex
+	Root int
+}
+
+// VerifNewTree creates an empty tree on in-memory blocks (room for segs segments of blocks).
+func VerifNewTree(segs int) *VerifTree {
+	if segs <= 0 {
+		segs = 20
+	}
+	bks, err := bstorage.NewBlocks(blockSize, bstorage.NewInMemBytes(int(bstorage.GetBlocksInSegment(blockSize)*blockSize*segs)), true)
+	if err != nil {
+		panic(err)
+	}
+	return &VerifTree{newCkIndex(bks), -1}
+}
+
+// Add is ckindex.addInterval on the tree's root.
+func (t *VerifTree) Add(ts0 int64, i0 uint32, ts1 int64, i1 uint32) error {
+	r, err := t.ci.addInterval(t.Root, interval{record{ts0, i0}, record{ts1, i1}})
+	if err == nil {
+		t.Root = r
+	}
+	return err
+}
+
+// Intervals is ckindex.traversal: the level-0 intervals in order.
+func (t *VerifTree) Intervals() ([][2]VerifPt, error) {
+	if t.Root < 0 {
+		return nil, nil
+	}
+	iv, err := t.ci.traversal(t.Root, nil)
+	if err != nil {
+		return nil, err
+	}
+	res := make([][2]VerifPt, 0, len(iv))
+	for _, x := range iv {
+		res = append(res, [2]VerifPt{{x.p0.ts, x.p0.idx}, {x.p1.ts, x.p1.idx}})
+	}
+	return res, nil
+}
+
+// GrEq is ckindex.grEq; the string is the error text ("" = none).
+func (t *VerifTree) GrEq(ts int64) (uint32, string) {
+	r, err := t.ci.grEq(t.Root, ts)
+	if err != nil {
+		return 0, err.Error()
+	}
+	return r.idx, ""
+}
+
+// Less is ckindex.less; the string is the error text ("" = none).
+func (t *VerifTree) Less(ts int64) (uint32, string) {
+	r, err := t.ci.less(t.Root, ts)
+	if err != nil {
+		return 0, err.Error()
+	}
+	return r.idx, ""
+}
+
+// VerifErrAllMatches is the text of errAllMatches.
+func VerifErrAllMatches() string { return errAllMatches.Error() }
+
+// Count is ckindex.count (number of level-0 records).
+func (t *VerifTree) Count() int {
+	if t.Root < 0 {
+		return 0
+	}
+	c, _ := t.ci.count(t.Root)
+	return c
+}
+
+// Level is the level of the root block (0 = a single leaf).
+func (t *VerifTree) Level() int {
+	if t.Root < 0 {
+		return 0
+	}
+	b, err := readBlock(t.ci.bks, t.Root)
+	if err != nil {
+		return -1
+	}
+	return b.level()
+}
+
+// Close releases the in-memory storage.
+func (t *VerifTree) Close() { t.ci.Close() }
